@@ -65,7 +65,19 @@ func runOne(ctx context.Context, s solverSpec, file string, timeoutS int) (strin
 }
 
 // race runs all solvers; the first `unsat` wins. `sat` from any solver is reported as sat.
+// Outside the thorough tier a one-second first stage with the two configurations that win most obligations saves
+// three process launches per easy obligation; anything it does not prove goes to the full portfolio.
 func race(file string, timeoutS int, all bool) solveResult {
+	if !all && timeoutS > 1 {
+		r := raceSet([]solverSpec{solvers[0], solvers[4]}, file, 1, false)
+		if r.verdict == "unsat" {
+			return r
+		}
+	}
+	return raceSet(solvers, file, timeoutS, all)
+}
+
+func raceSet(solvers []solverSpec, file string, timeoutS int, all bool) solveResult {
 	ctx, cancel := context.WithCancel(context.Background())
 	defer cancel()
 	type r struct {
@@ -184,6 +196,8 @@ func (e *Engine) Discharge(obls []*Obligation, opt SolveOpts) error {
 		jobs = append(jobs, j)
 	}
 	var wg sync.WaitGroup
+	var failMu sync.Mutex
+	failCount := map[string]int{}
 	ch := make(chan job)
 	for w := 0; w < opt.Workers; w++ {
 		wg.Add(1)
@@ -205,6 +219,29 @@ func (e *Engine) Discharge(obls []*Obligation, opt SolveOpts) error {
 					continue
 				}
 				sliced := false
+				// a function that already has several undecided obligations is a failing function: the remaining ones
+				// get a short limit (they are still attempted and reported), so a broken function costs a minute, not five
+				tmo := opt.TimeoutS
+				if !opt.All {
+					failMu.Lock()
+					nf := failCount[o.Func]
+					failMu.Unlock()
+					if nf >= 3 {
+						tmo = 4
+						r := race(j.file, tmo, false)
+						o.Solver, o.Seconds, o.Output = r.solver, r.secs, r.output
+						switch r.verdict {
+						case "unsat":
+							o.Status = "discharged"
+						case "sat":
+							o.Status = "failed"
+						default:
+							o.Status = "unknown"
+							o.Output = fmt.Sprintf("%v %s (short limit: %d obligations of %s already undecided)", r.all, r.output, nf, o.Func)
+						}
+						continue
+					}
+				}
 				if len(j.slices) > 0 && !opt.All {
 					// quick attempt on the full query first: most obligations discharge in well under a second
 					rq := race(j.file, 2, false)
@@ -249,6 +286,11 @@ func (e *Engine) Discharge(obls []*Obligation, opt SolveOpts) error {
 				default:
 					o.Status = "unknown"
 					o.Output = fmt.Sprintf("%v %s", r.all, r.output)
+				}
+				if o.Status != "discharged" && o.Func != "" {
+					failMu.Lock()
+					failCount[o.Func]++
+					failMu.Unlock()
 				}
 			}
 		}()
